@@ -19,7 +19,7 @@ MC_SUBCHECK(bundle)
     using G = Bundle<Bundle<SO2d, Eigen::Matrix<double, 1, 1>>, SE3d>;
     c16::Harness<G> h("Bundle<Bundle<SO2,T1>,SE3>d");
     h.add("m.part<0>() = value#1.part<0>()", 0, 3, [](auto & x, const auto & p) { x.template part<0>() = p.g[1].template part<0>(); });
-    h.add("m.part<0>().part<0>() *= value#2.part<0>().part<0>()", 0, 2, [](auto & x, const auto & p) { x.template part<0>().template part<0>() *= p.g[2].template part<0>().template part<0>(); });
+    h.add("m.part<0>().part<0>() *= value#2.part<0>().part<0>()", 0, 2, [](auto & x, const auto & p) { x.template part<0>().template part<0>() *= c16::rpart<0>(c16::rpart<0>(p.g[2])); });
     h.add("m.part<0>().part<1>() *= 2", 2, 1, [](auto & x, const auto &) { x.template part<0>().template part<1>() *= 2; });
     h.add("m.part<1>() *= value#1.part<1>()", 3, 7, [](auto & x, const auto & p) { x.template part<1>() *= p.g[1].template part<1>(); });
     h.add("m.part<1>().so3() = value#2.part<1>().so3()", 6, 4, [](auto & x, const auto & p) { x.template part<1>().so3() = p.g[2].template part<1>().so3(); });
